@@ -238,7 +238,7 @@ def run(run):
         cases.append({"kind": "cross-version-history", "key": key})
     for version, which in (("2.0", "long-lists"), ("2.1", "long-lists"), ("2.1", "prefix-keys"), ("2.1", "long-nested-list")):
         cases.append({"kind": "granular-extra", "version": version, "which": which})
-    run.pmap(run_any, cases)
+    run.pmap(run_any, cases, order_independent=True)
     run.part.sample({"version": "2.1", "key": "observables:network-traffic", "label": "min+end#2", "instance": "minimal network-traffic + end='2017-05-12T08:17:27.5Z' (+ is_active=false)"})
     run.part.sample({"version": "2.0", "key": "observables:file", "label": "max", "context": "member '0' of an observed-data container with its referenced members"})
     run.part.sample({"version": "2.1", "key": "objects:malware", "label": "max", "selector": "kill_chain_phases.[0].phase_name", "marking": "marking_ref"})
